@@ -268,3 +268,28 @@ def __loopframe__(X, st, e):
             excl.append(l != v2.v)
     same = z3.And(st.heap["@len"][l] == h0["@len"][l], st.heap["@el"][l] == h0["@el"][l])
     return BoolV(safe_forall([l], z3.Implies(z3.And(h0["@alloc"][l], *excl), same), patterns=[st.heap["@len"][l], st.heap["@el"][l]]))
+
+
+@spec
+def callres(X, st, e):
+    """the value returned by the k-th call (on this path) of the contracted callee with that name"""
+    key = (e.args[0].value, e.args[1].value)
+    rec = st.meta.get("callres", {})
+    if key not in rec:
+        # no such call on this path: an arbitrary value of the callee's result type (such uses sit under an implication)
+        for q, c in X.ctx.contracts.items():
+            if q.split(".")[-1] == key[0] and c.result:
+                return wrap(fresh("nocall", sort_of(c.result)), c.result, fresh("nocall_isnone", B) if parse_type(c.result)[2] else None)
+        raise VCError(f"callres{key}: no such call on this path")
+    return rec[key]
+
+
+_EQFN = z3.Function("abs_equals_result", I, I, B, B, B, B, B)
+
+
+@spec
+def abs_equals_result(X, st, e):
+    """the value AbsoluteSequence.equals returns for these two sequences and these four flags (a name, not a definition)"""
+    a, b = X.ev(e.args[0], st), X.ev(e.args[1], st)
+    fl = [X.truth(X.ev(x, st), st) for x in e.args[2:6]]
+    return BoolV(_EQFN(a.v, b.v, *fl))
